@@ -25,6 +25,8 @@ pub mod verify;
 pub mod injection;
 pub mod lsp_requests;
 pub mod inspect;
+pub mod structural;
+pub mod project;
 
 pub struct Ctx {
   pub seed: u64,
@@ -69,6 +71,8 @@ pub fn run(unit: &str, ctx: &Ctx, rng: &mut Rng, o: &mut Out) -> bool {
     "injection" => injection::injection(ctx, rng, o),
     "lsp_requests" => lsp_requests::lsp_requests(ctx, rng, o),
     "inspect" => inspect::inspect(ctx, rng, o),
+    "structural" => structural::structural(ctx, rng, o),
+    "project" => project::project(ctx, rng, o),
     "frontends_edit" => frontends::frontends_edit(ctx, rng, o),
     "frontends_findings" => frontends::frontends_findings(ctx, rng, o),
     "read_file" => worker::read_file(ctx, rng, o),
@@ -148,6 +152,12 @@ pub fn exec_op(op: &str, a: &serde_json::Value) -> serde_json::Value {
     return v;
   }
   if let Some(v) = inspect::exec(op, a) {
+    return v;
+  }
+  if let Some(v) = structural::exec(op, a) {
+    return v;
+  }
+  if let Some(v) = project::exec(op, a) {
     return v;
   }
   serde_json::json!({"harness_error": format!("op {op} is not replayable stand-alone")})
